@@ -696,9 +696,20 @@ class CphotAng:
             return np.empty([]), np.empty([])
 
         #######################
+        def run_event(x):
+            # A StopIteration escaping from an event (e.g. from a cloud callback) would be
+            # taken by the bag's map for the end of the partition and silently truncate
+            # the batch; surface it as an error of the batch call instead.
+            try:
+                return self.run(*x, cloudf)
+            except StopIteration as ex:
+                raise RuntimeError("StopIteration raised while evaluating an event") from ex
+
         b = db.from_sequence(
             zip(betaE, alt, Eshow100PeV, init_lat, init_long), partition_size=100
         )
         with ProgressBar():
-            Dphots, Cang = zip(*b.map(lambda x: self.run(*x, cloudf)).compute())
+            Dphots, Cang = zip(*b.map(run_event).compute())
+        if len(Dphots) != len(betaE):
+            raise RuntimeError("batch evaluation lost or duplicated events")
         return np.asarray(Dphots), np.array(Cang)
